@@ -27,9 +27,10 @@ const verifHostProgram = "import trigger minute from triggers;\nimport templ Foo
 	"fn early(n: int) -> int {\n  for i in 0..3 {\n    try {\n      if i == n { return i * 10; }\n    } catch e { }\n  }\n  return 99;\n}\n" +
 	"fn boom(a: int) -> int {\n  let local = a * 2;\n  if a > 0 { throw(\"boom\"); }\n  return local;\n}\n" +
 	"fn lst(a: int) -> [int] { return [a, a + 1]; }\n" +
+	"fn checked(a: int) -> int {\n  try {\n    return boom(a) + 1;\n  } catch e {\n    return 0 - 1;\n  }\n}\n" +
 	"fn main() { }\n"
 
-var verifHostTargets = []string{"sub", "inc", "early", "boom", "lst", "dim", "reg", "scan"}
+var verifHostTargets = []string{"sub", "inc", "early", "boom", "lst", "dim", "reg", "scan", "checked"}
 
 type verifHostVM struct {
 	vm       runtime.VM
@@ -160,6 +161,13 @@ func VerifHarness_HostCalls() {
 				want = a
 			}
 			errors.VerifAssert("iteration-over-a-global-range-starts-afresh-in-every-call", rv.Kind() == vvalue.IntValueKind && rv.(vvalue.ValueInt).Inner == want)
+		case "checked":
+			// the returned expression throws inside the try block: the function's own handler answers
+			want := a*2 + 1
+			if a > 0 {
+				want = -1
+			}
+			errors.VerifAssert("throw-while-evaluating-a-returned-expression-is-caught-by-the-enclosing-try", rv.Kind() == vvalue.IntValueKind && rv.(vvalue.ValueInt).Inner == want)
 		case "lst":
 			ok := rv.Kind() == vvalue.ListValueKind
 			if ok {
